@@ -42,6 +42,8 @@ Definition G (s : nstate) (c : call) : Prop :=
   | CProcessBlock _ _ => commit_quorum s /\ blockProcessed s = false            (* C05: at most one hand-over per height *)
   | CProcessPreBlock _ _ => amev_on cfg s = true /\ precommit_quorum s /\ preBlockProcessed s = false
   | CTimerReset h v _ => h = BlockIndex s /\ v = ViewNumber s        (* C10: the timer is armed for the node's epoch at that instant *)
+  | CSubscribe => cfg_dyn cfg = true                                 (* C16: the subscription callback only with the extension configured *)
+  | CNewBlock _ => amev_on cfg s = true -> preBlockProcessed s = true   (* C07: the final block is built only after the pre-block was accepted *)
   | _ => True
   end.
 
@@ -116,7 +118,23 @@ Proof.
   apply Z.eqb_eq in E1, E2. auto.
 Qed.
 Hint Resolve f_StopTxFlow f_changeTimer : rtdb.
-Lemma f_MakeHeader : rtF (MakeHeader cfg). Proof. unfold MakeHeader. rt_go leafG. Qed.
+Lemma f_MakeHeader : rtF (MakeHeader cfg).
+Proof.
+  intros s0. unfold MakeHeader. apply x_get. destruct (header s0).
+  { apply x_ret. split; [apply (R_refl RF)|apply trG_nil]. }
+  eapply x_rt; [apply f_RequestSentOrReceived|]. intros rs s1 n1 R1 T1. cbn beta.
+  destruct (negb rs). { apply x_ret. rewrite app_nil_r. split; assumption. }
+  destruct (amev_on cfg s0 && negb (preBlockProcessed s0)) eqn:Eg. { apply x_ret. rewrite app_nil_r. split; assumption. }
+  apply x_ask. intros ok c Hc. apply sel_NewBlock in Hc. subst c.
+  assert (Gc : G s1 (CNewBlock ok)).
+  { cbn. intros Ha. destruct R1 as (E1 & _ & _ & _ & _ & _ & _ & _ & _ & _ & E11 & _). unfold amev_on in *. rewrite E1 in Ha. rewrite Ha in Eg. cbn in Eg.
+    rewrite E11. destruct (preBlockProcessed s0); [reflexivity|discriminate]. }
+  destruct ok.
+  - apply x_modify. apply x_ret. split.
+    + apply (R_trans RF _ s1); [exact R1|]. unfold RF, RFr. cbn. repeat split; reflexivity.
+    + apply trG_app; [exact T1|]. apply trG_cons; [exact Gc|apply trG_nil].
+  - apply x_ret. split; [exact R1|]. apply trG_app; [exact T1|]. apply trG_cons; [exact Gc|apply trG_nil].
+Qed.
 Lemma f_MakePreHeader : rtF MakePreHeader. Proof. unfold MakePreHeader. rt_go leafG. Qed.
 Hint Resolve f_MakeHeader f_MakePreHeader : rtdb.
 Lemma f_CreateBlock : rtF (CreateBlock cfg). Proof. unfold CreateBlock. rt_go leafG. Qed.
@@ -130,7 +148,11 @@ Hint Resolve f_extendTimer : rtdb.
 
 (* ---- typed-invariant + gates, function by function (rtI) ---- *)
 Hint Resolve toI : rtdb.
-Lemma i_subscribe : rtI subscribeForTransactions. Proof. unfold subscribeForTransactions. rt_go leafG. Qed.
+Lemma i_subscribe : cfg_dyn cfg = true -> rtI subscribeForTransactions.
+Proof.
+  intros Hd. unfold subscribeForTransactions. apply rt_bind; [rt_go leafG|intros _]. unfold ask_unit. apply rt_ask. intros s c a Hc.
+  destruct c; try discriminate Hc. exact Hd.
+Qed.
 Lemma i_unsubscribe : rtI unsubscribeFromTransactions. Proof. unfold unsubscribeFromTransactions. rt_go leafG. Qed.
 Hint Resolve i_subscribe i_unsubscribe : rtdb.
 Lemma i_GetPrimaryIndex s v : rtI (GetPrimaryIndex s v). Proof. unfold GetPrimaryIndex. rt_go leafG. Qed.
@@ -615,9 +637,12 @@ Proof.
 Qed.
 
 Definition TsOK (s : nstate) : Prop := u64 (lastBlockTimestamp s + cfg_inc cfg) <= Timestamp s.
-Lemma fill_ts force s0 : hx s0 (Fill cfg force) (fun r s tr => r = true -> TsOK s).
+Lemma fill_ts force s0 : hx s0 (Fill cfg force) (fun r s tr => (r = true -> TsOK s) /\ (r = false -> cfg_dyn cfg = true)).
 Proof.
-  unfold Fill, getTimestamp, ask_now. xs. all: try discriminate. all: intros _; unfold TsOK.
+  unfold Fill, getTimestamp, ask_now. xs.
+  all: try match goal with |- _ /\ _ => split; let Hr := fresh "Hr" in intros Hr; try discriminate Hr end.
+  all: try match goal with H : (_ && _ && _) = true |- cfg_dyn cfg = true => apply andb_true_iff in H; destruct H as [H _]; apply andb_true_iff in H; destruct H as [H _]; exact H end.
+  all: unfold TsOK.
   all: match goal with |- context[if ?b then _ else _] => destruct b eqn:E1 end; cbn [Timestamp lastBlockTimestamp set].
   - apply Z.gtb_lt in E1. cbn [Timestamp lastBlockTimestamp set] in E1. lia.
   - lia.
@@ -625,24 +650,24 @@ Qed.
 Definition ReqM (s : nstate) (m : payload) : Prop :=
   m = mk_payload s (B0 (BPrepareRequest (Timestamp s) (Nonce s) (TransactionHashes s))) /\ TsOK s.
 Lemma t_makePrepareRequest force s0 :
-  hx s0 (makePrepareRequest cfg force) (fun r s tr => RI s0 s /\ trG G tr /\ forall m, r = Some m -> ReqM s m).
+  hx s0 (makePrepareRequest cfg force) (fun r s tr => RI s0 s /\ trG G tr /\ (forall m, r = Some m -> ReqM s m) /\ (r = None -> cfg_dyn cfg = true)).
 Proof.
   unfold makePrepareRequest. eapply x_call; [apply x_conj; [apply (i_Fill force)|apply (fill_ts force)]|].
-  intros ok s1 n1 ((R1 & T1) & Ts). cbn beta. destruct ok; cbn [negb].
-  - apply x_get. apply x_ret. rewrite app_nil_r. split; [exact R1|split; [exact T1|]]. intros m [= <-]. split; [reflexivity|auto].
-  - apply x_ret. rewrite app_nil_r. split; [exact R1|split; [exact T1|discriminate]].
+  intros ok s1 n1 ((R1 & T1) & Ts & Td). cbn beta. destruct ok; cbn [negb].
+  - apply x_get. apply x_ret. rewrite app_nil_r. split; [exact R1|split; [exact T1|split; [|discriminate]]]. intros m [= <-]. split; [reflexivity|auto].
+  - apply x_ret. rewrite app_nil_r. split; [exact R1|split; [exact T1|split; [discriminate|auto]]].
 Qed.
 
 Lemma b_sendPrepareRequest force : kB (sendPrepareRequest cfg force).
 Proof.
   intros s0 H0 U0. unfold sendPrepareRequest.
-  eapply x_call; [apply (t_makePrepareRequest force s0)|]. intros m1 s1 n1 (R1 & T1 & Ty1). cbn beta.
+  eapply x_call; [apply (t_makePrepareRequest force s0)|]. intros m1 s1 n1 (R1 & T1 & Ty1 & Dy1). cbn beta.
   pose proof (RI_Inv _ _ R1 H0) as I1. pose proof (RI_U _ _ R1 U0) as U1.
   eapply x_call with (Qx := fun r s tr => Inv s /\ U s /\ trG G tr /\ forall m, r = Some m -> ReqM s m).
   { destruct m1 as [x|].
     - apply x_ret. split; [exact I1|split; [exact U1|split; [apply trG_nil|]]]. intros m [= <-]. apply Ty1. reflexivity.
-    - istep i_subscribe.
-      eapply x_conseq; [apply (t_makePrepareRequest force s)|]. cbn. intros r0 s2 n2 (Ra & Ta & Tya).
+    - istep (i_subscribe (Dy1 eq_refl)).
+      eapply x_conseq; [apply (t_makePrepareRequest force s)|]. cbn. intros r0 s2 n2 (Ra & Ta & Tya & _).
       split; [exact (RI_Inv _ _ Ra H)|split; [exact (RI_U _ _ Ra H1)|split; [trs|exact Tya]]]. }
   intros m2 s2 n2 (I2 & U2 & T2 & Ty2). cbn beta. destruct m2 as [msg|].
   - destruct (Ty2 msg eq_refl) as [Em Ts2]. assert (Tyq : p_type msg = PrepareRequestT) by (rewrite Em; reflexivity).
@@ -1111,12 +1136,13 @@ Proof.
     + istep i_sendRecoveryMessage. apply x_get. ilast (toI _ (f_changeTimer (shl64 (timePerBlock s4) 1))).
     + apply x_get.
       eapply x_call with (Qx := fun _ s tr => Inv s /\ U s /\ trG G tr).
-      { match goal with |- context[if ?b then _ else _] => destruct b end; [|apply x_ret; split; [assumption|split; [assumption|trs]]].
+      { match goal with |- context[if ?b then _ else _] => destruct b eqn:Edyn end; [|apply x_ret; split; [assumption|split; [assumption|trs]]].
+        assert (Hdyn : cfg_dyn cfg = true) by (apply andb_true_iff in Edyn; destruct Edyn as [Edyn _]; apply andb_true_iff in Edyn; destruct Edyn as [_ Edyn]; exact Edyn).
         destruct force.
         - istep (toI _ (f_changeTimer (shl64 (timePerBlock s3) 1))). istep i_unsubscribe. apply x_ret; split; [assumption|split; [assumption|trs]].
         - destruct (negb (txSubscriptionOn s3)); [|apply x_ret; split; [assumption|split; [assumption|trs]]].
           apply x_ask. intros txx c Hc. destruct (zlen txx =? 0); [|apply x_ret; split; [assumption|split; [assumption|trs]]].
-          istep i_subscribe. apply x_get.
+          istep (i_subscribe Hdyn). apply x_get.
           match goal with |- hx ?st (bind (changeTimer ?d) _) _ => istep (toI _ (f_changeTimer d)) end.
           apply x_ret; split; [assumption|split; [assumption|trs]]. }
       intros stop s5 n5 (I5 & U5 & T5). cbn beta. destruct stop; [kret|].
@@ -1185,5 +1211,11 @@ Theorem processpreblock_gate st ev sc st' tr s h e : Reach cfg st -> step cfg st
 Proof. intros HR Hs Hin. exact (gate_at _ _ _ _ _ _ _ HR Hs Hin). Qed.
 Theorem timer_gate st ev sc st' tr s h v d : Reach cfg st -> step cfg st ev sc = Ok (st', tr) ->
   In (s, CTimerReset h v d) tr -> h = BlockIndex s /\ v = ViewNumber s.
+Proof. intros HR Hs Hin. exact (gate_at _ _ _ _ _ _ _ HR Hs Hin). Qed.
+Theorem subscribe_gate st ev sc st' tr s : Reach cfg st -> step cfg st ev sc = Ok (st', tr) ->
+  In (s, CSubscribe) tr -> cfg_dyn cfg = true.
+Proof. intros HR Hs Hin. exact (gate_at _ _ _ _ _ _ _ HR Hs Hin). Qed.
+Theorem newblock_gate st ev sc st' tr s ok : Reach cfg st -> step cfg st ev sc = Ok (st', tr) ->
+  In (s, CNewBlock ok) tr -> amev_on cfg s = true -> preBlockProcessed s = true.
 Proof. intros HR Hs Hin. exact (gate_at _ _ _ _ _ _ _ HR Hs Hin). Qed.
 End Corollaries.
